@@ -261,7 +261,7 @@ class UB:
             if g is not None:
                 x, pos, zero = g
                 saved = self.site; self.site = i.block
-                try: e = self.exact(x, depth + 1); pv = self.exact(pos["v"], depth + 1); zv = self.exact(zero["v"], depth + 1)
+                try: e = self.guard_excess(x); pv = self.exact(pos["v"], depth + 1); zv = self.exact(zero["v"], depth + 1)
                 finally: self.site = saved
                 if e is not None and pv is not None and zv is not None: return zv + ind_poly(e) * (pv - zv)
         if i.op == "call":
@@ -673,6 +673,31 @@ class UB:
             if d is not None:
                 e = self.exact(d[0]) if self.q else None
                 return udiv_poly(e if e is not None else self.ub(d[0]), d[1])
+        # (iv) count-down: continue while r > 0 / r != 0, r -= s (tested on the header phi, or after the decrement in a do/while)
+        for (x, y, p) in ((a, b, pred), (b, a, {"ult": "ugt", "ugt": "ult", "ne": "ne", "uge": "ule", "ule": "uge"}.get(pred))):
+            if p not in ("ugt", "ne", "uge") or y["k"] != "int" or x["k"] != "inst": continue
+            if int(y["v"]) != (1 if p == "uge" else 0): continue
+            xi = fn.imap[x["v"]]; after = False
+            def dec_of(ii):
+                if ii.op == "add" and ii.ops[1]["k"] == "int" and int(ii.ops[1]["sv"]) < 0 and ii.ops[0]["k"] == "inst": return fn.imap[ii.ops[0]["v"]], -int(ii.ops[1]["sv"])
+                if ii.op == "sub" and ii.ops[1]["k"] == "int" and int(ii.ops[1]["sv"]) > 0 and ii.ops[0]["k"] == "inst": return fn.imap[ii.ops[0]["v"]], int(ii.ops[1]["sv"])
+                return None, None
+            ph = xi
+            if xi.op != "phi":
+                ph, s1 = dec_of(xi); after = True
+                if ph is None: continue
+            if ph.op != "phi" or ph.block.id != h: continue
+            backv = [inc["v"] for inc in ph["incoming"] if inc["b"] in body]; outs = [inc for inc in ph["incoming"] if inc["b"] not in body]
+            if len(backv) != 1 or len(outs) != 1 or backv[0]["k"] != "inst": continue
+            bph, s0 = dec_of(fn.imap[backv[0]["v"]])
+            if bph is not ph or s0 != 1: continue            # unit steps only: `!= 0` with a larger step can skip over zero
+            if after and (s1 != 1 or xi.id != backv[0]["v"]): continue
+            I0 = self.ub(outs[0]["v"])
+            if not after: return I0                            # header test: r, r-1, ..., 1 pass
+            # do/while (--r > 0): entered with r >= 1 (else the decrement wraps), then r-1, ..., 1 pass
+            lo = self.iv.ival_at(outs[0]["v"], fn.bmap[outs[0]["b"]])[0][0]
+            if lo < 1: raise Unbounded("count-down loop at block %d may be entered with a zero counter" % h)
+            return I0 - Poly.const(1)
         # (i) counter: continue while i < N (step s > 0)
         flip = {"ult": "ugt", "ule": "uge", "ugt": "ult", "uge": "ule", "slt": "sgt", "sle": "sge", "sgt": "slt", "sge": "sle", "ne": "ne", "eq": "eq"}
         for (x, y, p) in ((a, b, pred), (b, a, flip[pred])):
@@ -682,9 +707,42 @@ class UB:
             init = [inc["v"] for inc in ph["incoming"] if inc["b"] not in body][0]
             N = self.ub(y); I0 = self.lb(init)
             span = N - I0 + (Poly.const(1) if p in ("ule", "sle") else Poly.const(0))
+            # a rotated loop (`if (i0 < n) do { ... } while (++i < n)`): the test sees the incremented value, so the back edge is taken once
+            # less than the body runs - provided the guard in front of the loop makes the first iteration legitimate
+            xs = x
+            for _ in range(3):
+                if xs["k"] == "inst" and fn.imap[xs["v"]].op in ("zext", "sext", "trunc"): xs = fn.imap[xs["v"]].ops[0]
+            after = xs["k"] == "inst" and fn.imap[xs["v"]].op == "add" and s0 == 1 and p in ("ult", "slt", "ne")
+            if after and self.entry_guarded(h, body, init, y, ci): span = span - Poly.const(1)
             if s0 == 1: return span
             return udiv_poly(span + Poly.const(s0 - 1), s0)
         raise Unbounded("exit test not understood")
+
+    def entry_guarded(self, h, body, init, bound, ci):
+        """the loop is only entered when init < bound (same bound operand as the latch test), by a branch that dominates the header"""
+        fn = self.fn; fn.dom()
+        same = lambda a, b: (a["k"], a.get("v")) == (b["k"], b.get("v"))
+        def strip(o):
+            for _ in range(3):
+                if o["k"] == "inst" and fn.imap[o["v"]].op in ("zext", "sext", "trunc"): o = fn.imap[o["v"]].ops[0]
+            return o
+        for d in fn.dom_chain(h):
+            if d == h: continue
+            blk = fn.bmap[d]
+            if len(blk.preds) != 1: continue
+            t = blk.preds[0].term
+            if t.op != "br" or len(t.ops) != 3 or t.ops[0]["k"] != "inst" or t.ops[1]["v"] == t.ops[2]["v"]: continue
+            g = fn.imap[t.ops[0]["v"]]
+            if g.op != "icmp": continue
+            taken = t.ops[2]["v"] == d
+            a, b = strip(g.ops[0]), strip(g.ops[1]); pr = g["pred"]
+            if not taken: pr = {"ult": "uge", "ule": "ugt", "ugt": "ule", "uge": "ult", "slt": "sge", "sle": "sgt", "sgt": "sle", "sge": "slt", "eq": "ne", "ne": "eq"}[pr]
+            i0, bd = strip(init), strip(bound)
+            if pr in ("ult", "slt") and same(a, i0) and same(b, bd): return True
+            if pr in ("ugt", "sgt") and same(b, i0) and same(a, bd): return True
+            if i0["k"] == "int" and int(i0["v"]) == 0 and same(a, bd) and b["k"] == "int" and ((pr in ("ne", "ugt") and int(b["v"]) == 0) or (pr == "uge" and int(b["v"]) == 1)): return True
+            if i0["k"] == "int" and b["k"] == "int" and same(a, bd) and pr == "ugt" and int(b["v"]) >= int(i0["v"]): return True
+        return False
 
     def counter(self, o, h, body):
         """o is (a cast of) a header phi with constant positive step: returns (phi, step)"""
@@ -722,7 +780,15 @@ class UB:
         fn = self.fn; idom = fn.dom(); d = fn.bmap[idom[ph.block.id]]; t = d.term
         if t.op != "br" or len(t.ops) != 3 or t.ops[0]["k"] != "inst": return None
         ci = fn.imap[t.ops[0]["v"]]
-        if ci.op != "icmp" or ci.ops[1]["k"] != "int" or int(ci.ops[1]["v"]) != 0 or ci["pred"] not in ("ugt", "ne", "eq"): return None
+        if ci.op != "icmp": return None
+        # the guard as "a > b" (pos side) / "a <= b" (zero side), a and b operands or constants; x > 0, x != 0, x == 0 are the special case b = 0
+        pr = ci["pred"]; A_, B_ = ci.ops; shift = 0; flipped = False
+        if B_["k"] == "int" and int(B_["v"]) == 0 and pr in ("ugt", "ne", "eq"): pass
+        elif pr in ("ugt", "sgt"): pass
+        elif pr in ("uge", "sge") and B_["k"] == "int" and int(B_["sv"]) >= 1: shift = 1               # a >= K  <=>  a > K - 1
+        elif pr in ("ult", "slt"): A_, B_ = B_, A_                                                     # a < b  <=>  b > a
+        elif pr in ("ule", "sle"): flipped = True                                                      # a <= b: the false side is a > b
+        else: return None
         tru, fls = t.ops[2]["v"], t.ops[1]["v"]
         if tru == fls: return None
         def via(inc):
@@ -731,9 +797,17 @@ class UB:
             return tru if a and not b else (fls if b and not a else None)
         v0, v1 = via(incs[0]), via(incs[1])
         if v0 is None or v1 is None or v0 == v1: return None
-        pos_succ = fls if ci["pred"] == "eq" else tru
+        pos_succ = fls if (ci["pred"] == "eq" or flipped) else tru
         pos = incs[0] if v0 == pos_succ else incs[1]; zero = incs[1] if pos is incs[0] else incs[0]
-        return ci.ops[0], pos, zero
+        return (A_, B_, shift), pos, zero
+
+    def guard_excess(self, g):
+        """exact polynomial of a - b (+ shift) for the guard `a > b` returned by guard_of_join, or None"""
+        A_, B_, shift = g
+        ea = Poly.const(int(A_["v"])) if A_["k"] == "int" else self.exact(A_)
+        eb = Poly.const(int(B_["v"])) if B_["k"] == "int" else self.exact(B_)
+        if ea is None or eb is None: return None
+        return ea - eb + Poly.const(shift)
 
     def join(self, ph, incs, evalf):
         """upper bound of a non-loop phi; q-mode: base + [x > 0] * extra when one side only adds"""
@@ -745,9 +819,21 @@ class UB:
                 pv = vals[0] if pos is incs[0] else vals[1]; zv = vals[1] if pos is incs[0] else vals[0]
                 d = pv - zv
                 saved = self.site; self.site = ph.block
-                try: e = self.exact(x)
+                try: e = self.guard_excess(x)
                 finally: self.site = saved
                 if e is not None and d.nonneg_coeffs(): return zv + ind_poly(e) * d
+                if e is not None and len(e.t) <= 2 and len([k for k in e.t if k != ()]) == 1:
+                    # x = atom + c: on the positive side atom >= 1 - c.  If the difference, written over E = atom + c - 1 >= 0, has no negative
+                    # coefficient it is non-negative and non-decreasing there (e.g. x = count - 1, difference 9*count - 9 = 9*(E + 1) - ... )
+                    (ak,) = [k for k in e.t if k != ()]
+                    if len(ak) == 1 and e.t[ak] == 1:
+                        Y = ("tmpY",)
+                        dy = d.subst(ak[0], Poly.atom(Y) - Poly.const(e.c()))
+                        if dy.nonneg_coeffs() and all(Y in k for k in dy.t):
+                            return zv + d                 # the difference is a multiple of x itself: it vanishes when x == 0, no case split needed
+                        E = ("tmpE",)
+                        d2 = d.subst(ak[0], Poly.atom(E) + Poly.const(1) - Poly.const(e.c()))
+                        if d2.nonneg_coeffs(): return zv + ind_poly(e) * d
         out = None
         for v in vals: out = v if out is None else pmax(out, v)
         return out
